@@ -1,8 +1,8 @@
 SPECIFICATION Spec
 CONSTANT Which = "C17"
-CONSTANT TinyLen = 0
-CONSTANT SmallLen = 4
-CONSTANT AsBuilt = {"FilterChecksPrefixOnly"}
+CONSTANT TinyLen = 7
+CONSTANT SmallLen = 0
+CONSTANT AsBuilt = {"FilterCutsAtHash"}
 CONSTANT MaxLen = 1
 INVARIANTS StaysOnOrigin
 CHECK_DEADLOCK FALSE
